@@ -59,6 +59,11 @@ def _native_getattr(I, inst, name):
             return (a.get('end'), 0)
     if name in ('transform', 'v_label', 's_label', 'i_label', 'value_label', 'center', 'bbox', 'unit'):
         return Opaque('schemdraw placement data ' + name)
+    if name == '__iadd__':
+        def iadd(args, kw):
+            inst.attrs.setdefault('elements', []).append(args[0])
+            return inst
+        return Builtin('Drawing.__iadd__', iadd)
     if name == 'add':
         def add(args, kw):
             inst.attrs.setdefault('elements', []).append(args[0])
